@@ -102,6 +102,30 @@ def showState (d : D) : String :=
   String.join (weeks.map (showWeek s)) ++ s!" bk={showBuckets s}" ++
   String.join ((List.range d.users).map fun i => showUser s (i + 1))
 
+/-! Speed only: the model's maps are closures that grow by one layer per update, and printing the
+    state reads a few hundred keys through them.  After every successful op the driver re-tabulates
+    the hot maps over the window it prints; keys outside the window still go to the old closure,
+    so the function is extensionally the SAME — nothing of the model's behaviour changes. -/
+
+def tabulate {α : Type} (f : Nat → α) (lo n : Nat) : Array α :=
+  (Array.range n).map fun i => f (lo + i)
+
+def lookupTab {α : Type} (arr : Array α) (lo : Nat) (f : Nat → α) (k : Nat) : α :=
+  if h : lo ≤ k ∧ k - lo < arr.size then arr[k - lo]'h.2 else f k
+
+def compact (s : FSt) : FSt :=
+  let g := s.w
+  let W := (s.week).getD 0
+  let lo := W - 8
+  let bk := tabulate g.buckets g.firstBucketId BUCKET_SPAN
+  let te := tabulate g.totalEnergy lo 10
+  let tl := tabulate g.totalLocked lo 10
+  let tr := tabulate g.totalRewards lo 10
+  { s with w := { g with buckets := lookupTab bk g.firstBucketId g.buckets
+                         totalEnergy := lookupTab te lo g.totalEnergy
+                         totalLocked := lookupTab tl lo g.totalLocked
+                         totalRewards := lookupTab tr lo g.totalRewards } }
+
 def parseKnown (ws : List String) : List Tok :=
   match kv ws "known" with
   | some v => (v.splitOn ",").filterMap String.toNat?
@@ -119,7 +143,7 @@ def handle (d : D) (line : String) : D × Option String :=
   | "O" :: n :: rest =>
       match (parseOp rest).bind (step d.s) with
       | some (s', o) =>
-          let d' : D := { d with s := s' }
+          let d' : D := { d with s := compact s' }
           (d', some s!"R {n} ok pays={showPays o.pays ","} | {showState d'}")
       | none => (d, some s!"R {n} err")
   | "Q" :: n :: _ => (d, some s!"V {n} err")
